@@ -98,6 +98,9 @@ impl<'a> StringLexer<'a> {
             },
 
             b'(' => {
+                if self.nested == i32::MAX {
+                    return Err(PdfError::MaxDepth);
+                }
                 self.nested += 1;
                 Ok(Some(b'('))
             },
